@@ -757,3 +757,108 @@ func cbmRoundInputs(c *Ctx, id string) {
 	}
 	c.Check(okJ, id, "cbm:join-time", reg.Pos(), "the join time kept for the heart-beats is the one written to the index", "the registration does not keep (clusterJoinTime ←) the join time it wrote to the index: later heart-beats carry another join time and the join order — the numbering — changes")
 }
+
+// cbmNumbering (C10): the numbering step of the Couchbase membership evaluated whole for 1..3 live instances over
+// every equality pattern between their ids and this member's id: this member's number is the (1-based) position of the
+// first instance carrying its id, the group size is the length of the list; the numbering is announced ⇔ it differs
+// from the one in effect; the list is recorded; a list that does not contain this member stops the client.
+func cbmNumbering(c *Ctx, id string) {
+	w := c.W
+	rb := w.Method("couchbase", "cbMembership", "rebalance")
+	inst := w.NamedType("couchbase", "Instance")
+	model := w.NamedType("membership", "Model")
+	c.need(rb != nil && inst != nil && model != nil && len(rb.Params) == 2, id, "cbMembership.rebalance(instances) / couchbase.Instance / membership.Model")
+	c.see(rb)
+	recv, listP := rb.Params[0].Name(), rb.Params[1].Name()
+	self := "string(" + recv + ".id)"
+	var isChanged *ssa.Function
+	for _, f := range w.ModFuncs {
+		if f.Name() == "IsChanged" && f.Signature.Recv() != nil && recvTypeName(f.Signature.Recv().Type()) == "Model" {
+			isChanged = f
+		}
+	}
+	c.need(isChanged != nil, id, "membership.Model.IsChanged")
+	for k := 1; k <= c.bound(3, 5); k++ {
+		kk := k
+		atoms := []string{self}
+		for i := 0; i < k; i++ {
+			atoms = append(atoms, fmt.Sprintf("inst%d.ID", i))
+		}
+		h := &Harness{Fn: rb, Groups: []Group{{Atoms: atoms, EqOnly: true}}, Bools: []string{"changed"}, Quiet: quietLog, MaxSteps: 20000, Concrete: true,
+			Args: map[string]func(st *State) AV{listP: func(st *State) AV {
+				var cs []*cell
+				for i := 0; i < kk; i++ {
+					cs = append(cs, &cell{typ: inst, sym: fmt.Sprintf("inst%d", i)})
+				}
+				return avSlice{cells: cs, sym: "liveList"}
+			}},
+			Oracle: func(st *State, name string, args []AV, res *types.Tuple) ([]AV, bool) {
+				if name == fname(isChanged) {
+					return []AV{avBool{st.B("changed")}}, true
+				}
+				return nil, false
+			}}
+		c.oae(id, fmt.Sprintf("cbm:numbering[%d instances]", k), rb.Pos(), h, func(st *State, out *Outcome) string {
+			first := -1
+			for i := 0; i < kk; i++ {
+				if st.Eq(fmt.Sprintf("inst%d.ID", i), self) && first < 0 {
+					first = i
+				}
+			}
+			var pubs []Effect
+			for _, e := range out.Trace {
+				if strings.HasSuffix(e.Name, ".Publish") {
+					pubs = append(pubs, e)
+				}
+			}
+			if first < 0 {
+				if !out.Panicked || len(pubs) != 0 {
+					return "this member is not in the live list, yet the round goes on: " + out.TraceString()
+				}
+				return ""
+			}
+			if out.Panicked {
+				return "panics although this member is in the list"
+			}
+			ics := out.Effects(fname(isChanged))
+			if len(ics) != 1 {
+				return fmt.Sprintf("the change test is made %d times", len(ics))
+			}
+			num, okN := structFieldAV(ics[0].Args[0], "MemberNumber")
+			tot, okT := structFieldAV(ics[0].Args[0], "TotalMembers")
+			if !okN || !okT || avString(num) != fmt.Sprint(first+1) || avString(tot) != fmt.Sprint(kk) {
+				return fmt.Sprintf("numbers itself %s of %s (expected %d of %d: position of the first instance with its id, length of the list)", avString(num), avString(tot), first+1, kk)
+			}
+			if !strings.HasSuffix(avString(ics[0].Args[1]), recv+".info") {
+				return "compares with " + avString(ics[0].Args[1]) + ", not with the numbering in effect"
+			}
+			want := 0
+			if st.B("changed") {
+				want = 1
+			}
+			if len(pubs) != want {
+				return fmt.Sprintf("%d announcements with changed=%v", len(pubs), st.B("changed"))
+			}
+			if want == 1 {
+				last := pubs[0].Args[len(pubs[0].Args)-1]
+				if vs, ok := last.(avSlice); ok && len(vs.cells) == 1 && vs.cells[0].have {
+					last = vs.cells[0].val // (the variadic argument list)
+				}
+				if p, ok := last.(avIface); ok {
+					last = p.val
+				}
+				if a, ok := ics[0].Args[0].(avPtr); !ok || avString(last) != avString(a) {
+					// the announced model is the one that was compared
+					n2, _ := structFieldAV(last, "MemberNumber")
+					if avString(n2) != fmt.Sprint(first+1) {
+						return "announces " + avString(last) + ", not the numbering it computed"
+					}
+				}
+			}
+			if f, ok := out.Final(recv + ".lastActiveInstances").(avSlice); !ok || f.sym != "liveList" {
+				return "does not record the list it numbered from: " + avString(out.Final(recv+".lastActiveInstances"))
+			}
+			return ""
+		}, "number = position of the first instance with this member's id, size = len(list); announce ⇔ changed; record the list; absent ⇒ fatal")
+	}
+}
